@@ -327,6 +327,7 @@ func cmdRun(args []string) {
 	pkgFlag := fs.String("pkg", "", "package patterns (comma separated)")
 	timeout := fs.Duration("timeout", 10*time.Second, "solver timeout")
 	showModel := fs.Bool("model", false, "print a small model for sat obligations")
+	doReplay := fs.Bool("replay", false, "replay sat obligations (other than canaries) on the real code")
 	fs.Parse(args)
 	smtDir = *dump
 	if smtDir != "" {
@@ -372,6 +373,10 @@ func cmdRun(args []string) {
 					bad++
 					if *showModel && v.Status == "sat" {
 						w.printModel(res, i)
+					}
+					if *doReplay && v.Status == "sat" && o.Kind != "canary" {
+						rr := w.replay(res, i, "/verif/replays", 30*time.Second)
+						fmt.Printf("      replay: reproduced=%v %s %s\n", rr.Reproduced, rr.Path, rr.Note)
 					}
 				}
 			}
